@@ -552,12 +552,15 @@ func (w *World) FailLog(node int, on bool) { w.Node(node).Log.fail.Store(on) }
 func (w *World) Leave(id int) {
 	n := w.Node(id)
 	n.Dead = true
+	// the machine is gone: stop every goroutine of the node first, so that it cannot react to its
+	// clients' connections breaking (a crashed broker publishes no wills and sends no gossip)
+	n.stop()
 	for _, c := range w.Clients {
 		if c.Node == n {
 			c.Drop()
 		}
 	}
-	n.stop()
+	synctest.Wait()
 	for _, s := range w.Nodes {
 		if !s.Dead {
 			s.Members.NotifyGossipLeave(uint64(id))
@@ -655,4 +658,14 @@ func dbgLogger() *zap.Logger {
 		return l
 	}
 	return zap.NewNop()
+}
+
+// pendingFrom returns the origin of the pending gossip message with the given drain index (0 if delivered already).
+func (w *World) pendingFrom(idx int) uint64 {
+	for _, m := range w.Pending {
+		if m.Index == idx {
+			return m.From
+		}
+	}
+	return 0
 }
